@@ -16,7 +16,8 @@
 //     the one iid space of the accessory;
 //   - the objects of build 1, build 2 (and 3) carry equal ids position by position (position =
 //     construction order); the database served after the restart carries the ids of the one served
-//     before (documents are compared ordered by id: the order in which JSON lists its members is not part of the property);
+//     before (documents are compared ordered by id: the order in which JSON lists its members is not
+//     part of the property);
 //   - the JSON (json.Marshal of the container, and the served body), decoded into generic maps with
 //     json.Number, has "accessories"; per accessory "aid" (unsigned integer > 0) and "services" (array);
 //     per service "iid", "type" (non-empty string), "characteristics" (array); per characteristic "iid",
